@@ -4,6 +4,7 @@ import Driver.Text
 drv_proto, life ops (C11; not verified, exercised on every line):
 
   life run <tok>*      run the event sequence on one side from the initial (open) state
+  life runhook <tok>*  the same for a side whose `on_disconnect` hook raises
 
 tokens (<r> = s sent | e eof | h hook raised, close_catchall off | H hook raised, close_catchall on):
   cb            closeBegin (also closeAgain)        ce<r>           closeEnd
@@ -14,7 +15,7 @@ tokens (<r> = s sent | e eof | h hook raised, close_catchall off | H hook raised
   to            the innermost wait loop times out
 
 output: `acc=<accepted>/<total> closed=.. inClose=.. chan=.. hook=<n> cleaned=.. tables=.. pending=.. blocked=..
-         out=<s>:<v<payload>|eof|timeout|closeexc>,... raised=<user|attr>,...`
+         out=<s>:<v<payload>|eof|timeout|closeexc>,... raised=<user|attr|hook>,...`
 -/
 namespace Rpyc.Drv
 open Rpyc Rpyc.Proto.Life
@@ -76,6 +77,7 @@ def showRes : Res → String
 def showCloseExc : CloseExc → String
   | .user => "user"
   | .attributeError => "attr"
+  | .hook => "hook"
 
 def commasL (l : List String) : String := if l.isEmpty then "-" else ",".intercalate l
 
@@ -91,6 +93,13 @@ def lifeOp : List String → String
     match toks.mapM parseLifeEv with
     | some evs =>
       let (l, n) := runPrefix Life.init 0 evs
+      "acc=" ++ toString n ++ "/" ++ toString evs.length ++ " " ++ showLife l
+    | none => "bad-op"
+  | "runhook" :: toks =>
+    -- the same on a side whose `on_disconnect` hook raises
+    match toks.mapM parseLifeEv with
+    | some evs =>
+      let (l, n) := runPrefix (Life.initWith true) 0 evs
       "acc=" ++ toString n ++ "/" ++ toString evs.length ++ " " ++ showLife l
     | none => "bad-op"
   | _ => "bad-op"
